@@ -98,7 +98,7 @@ def run(tier, seed):
     tie_broken = []
     if not tie_ok:
         tie_broken.append('translator failed closed: ' + tout[-400:])
-    if proof['ok']:
+    if proof['ok'] or proof['extra_ok']:
         kf = common.run_cases(PID, 'corr', PRE, kcases, 'kcase_ok', shard=40)
         sf = common.run_cases(PID, 'snd', PRE, mcases, 'models_sound', shard=5)
         gf = common.run_cases(PID, 'gsnd', PRE, mcases, 'models_sound_ground', shard=5)
@@ -111,7 +111,7 @@ def run(tier, seed):
             tie_broken.append('compile model text differs from the implementation on %d specifications, first: %r' % (len(kf), kmeta[kf[0]]))
         if gf and not sf:
             tie_broken.append('ground semantics (Asp/Ground.v) rejects %d answer sets clingo computed, first: %r' % (len(gf), mmeta[gf[0]]))
-    else:
+    if not proof['ok']:
         tie_broken.append('theorem file does not build: %s | %s' % (proof['failed_at'], proof['log'][-300:]))
     if proof['bad']:
         tie_broken.append('forbidden tokens: %r' % proof['bad'])
